@@ -107,6 +107,12 @@ def _scalar_binop(it, op, a, b):
         a = int(a)
     if isinstance(b, bool):
         b = int(b)
+    if not isinstance(op, (ast.BitAnd, ast.BitOr, ast.BitXor)):
+        # a symbolic truth value used as a number (numpy: True == 1): decided per path
+        if is_sym(a) and is_bool_sym(a):
+            a = 1 if it.truth(a) else 0
+        if is_sym(b) and is_bool_sym(b):
+            b = 1 if it.truth(b) else 0
     if a is None or b is None:
         raise PyExc("TypeError", ("unsupported operand None",))
     both_int = isinstance(a, int) and isinstance(b, int)
@@ -167,6 +173,8 @@ def binop(it, op, a, b):
     if isinstance(a, (list, tuple)) and isinstance(b, (list, tuple)) and isinstance(op, ast.Add):
         return a + b
     if isinstance(a, (list, tuple)) and isinstance(b, int) and isinstance(op, ast.Mult):
+        return a * b
+    if isinstance(b, (list, tuple)) and isinstance(a, int) and isinstance(op, ast.Mult):
         return a * b
     if isinstance(a, np.ndarray) or isinstance(b, np.ndarray):
         return elementwise(lambda x, y: _scalar_binop(it, op, x, y), a, b)
@@ -456,7 +464,9 @@ def call_builtin(it, name, args, kwargs):
             acc = binop(it, ast.Add(), acc, x)
         return acc
     if name in ("str", "repr"):
-        return "<str>" if args and not isinstance(args[0], str) else (args[0] if args else "")
+        if args and isinstance(norm(args[0]), (int, str)) and not isinstance(args[0], bool):
+            return str(norm(args[0]))
+        return "<str>" if args else ""
     if name == "print":
         return None
     if name in ("any", "all"):
